@@ -1373,8 +1373,10 @@ class Store:
         for daughter, daughter_state in \
                 zip(daughters, daughter_states):
             # use initial state as default, merge in divided values
+            # (copied, so that the daughters do not share mutable values)
             merged_initial_state = deep_merge(
-                daughter_state, daughter.get('initial_state', {}))
+                copy.deepcopy(daughter_state),
+                daughter.get('initial_state', {}))
 
             daughter_key = daughter['key']
             daughter_path = (daughter_key,)
